@@ -47,7 +47,8 @@ def cheby1_seq(ns, x):
     ns = list(ns)
     cs = 1/jacobi_seq(ns, -.5, -.5, np.ones(1, dtype=x.dtype))
     seq = jacobi_seq(ns, -.5, -.5, x)
-    return seq*cs
+    # one constant per order: broadcast along axis 0 only, whatever the rank of x
+    return seq*cs.reshape((-1, *[1]*x.ndim))
 
 
 def cheby1_der(n, x):
@@ -88,7 +89,8 @@ def cheby1_der_seq(ns, x):
     ns = list(ns)
     cs = 1/jacobi_seq(ns, -.5, -.5, np.ones(1, dtype=x.dtype))
     seq = jacobi_der_seq(ns, -.5, -.5, x)
-    return seq*cs
+    # one constant per order: broadcast along axis 0 only, whatever the rank of x
+    return seq*cs.reshape((-1, *[1]*x.ndim))
 
 
 def cheby2(n, x):
@@ -135,7 +137,8 @@ def cheby2_seq(ns, x):
     ns = np.asarray(ns)
     cs = (ns+1)/np.squeeze(jacobi_seq(ns, .5, .5, np.ones(1, dtype=x.dtype)))
     seq = jacobi_seq(ns, .5, .5, x)
-    return seq*cs[:, np.newaxis]
+    # one constant per order: broadcast along axis 0 only, whatever the rank of x
+    return seq*cs.reshape((-1, *[1]*x.ndim))
 
 
 def cheby2_der(n, x):
@@ -176,7 +179,8 @@ def cheby2_der_seq(ns, x):
     ns = np.asarray(ns)
     cs = (ns + 1)/np.squeeze(jacobi_seq(ns, .5, .5, np.ones(1, dtype=x.dtype)))
     seq = jacobi_der_seq(ns, .5, .5, x)
-    return seq*cs[:, np.newaxis]
+    # one constant per order: broadcast along axis 0 only, whatever the rank of x
+    return seq*cs.reshape((-1, *[1]*x.ndim))
 
 
 def cheby3(n, x):
@@ -217,7 +221,8 @@ def cheby3_seq(ns, x):
     ns = list(ns)
     cs = 1/jacobi_seq(ns, -.5, .5, np.ones(1, dtype=x.dtype))
     seq = jacobi_seq(ns, -.5, .5, x)
-    return seq*cs
+    # one constant per order: broadcast along axis 0 only, whatever the rank of x
+    return seq*cs.reshape((-1, *[1]*x.ndim))
 
 
 def cheby3_der(n, x):
@@ -258,7 +263,8 @@ def cheby3_der_seq(ns, x):
     ns = list(ns)
     cs = 1/jacobi_seq(ns, -.5, .5, np.ones(1, dtype=x.dtype))
     seq = jacobi_der_seq(ns, -.5, .5, x)
-    return seq*cs
+    # one constant per order: broadcast along axis 0 only, whatever the rank of x
+    return seq*cs.reshape((-1, *[1]*x.ndim))
 
 
 def cheby4(n, x):
@@ -299,7 +305,8 @@ def cheby4_seq(ns, x):
     ns = np.asarray(ns)
     cs = (2*ns+1)/np.squeeze(jacobi_seq(ns, .5, -.5, np.ones(1, dtype=x.dtype)))
     seq = jacobi_seq(ns, .5, -.5, x)
-    return seq*cs[:, np.newaxis]
+    # one constant per order: broadcast along axis 0 only, whatever the rank of x
+    return seq*cs.reshape((-1, *[1]*x.ndim))
 
 
 def cheby4_der(n, x):
@@ -340,4 +347,5 @@ def cheby4_der_seq(ns, x):
     ns = np.asarray(ns)
     cs = (2*ns+1)/np.squeeze(jacobi_seq(ns, .5, -.5, np.ones(1, dtype=x.dtype)))
     seq = jacobi_der_seq(ns, .5, -.5, x)
-    return seq*cs[:, np.newaxis]
+    # one constant per order: broadcast along axis 0 only, whatever the rank of x
+    return seq*cs.reshape((-1, *[1]*x.ndim))
